@@ -68,6 +68,7 @@ type mbLib struct {
 	// interrupts
 	intrImpls map[*types.TypeName]*types.Const // interrupt struct -> Kind() constant
 	intrCtors map[*types.Func]*types.TypeName
+	callees   map[*types.Func][]*types.Func // static call edges inside the library (lazily built)
 }
 
 var mbLibCache = map[*Ctx]map[string]*mbLib{}
@@ -99,6 +100,7 @@ func mbLoadLib(c *Ctx, rel, tag string) *mbLib {
 			l.decls[fn] = fd
 		}
 	}
+	mbDeclsOfInfo[l.info] = l.decls
 	// kind enum = result type of Value.Kind
 	ko, _, _ := types.LookupFieldOrMethod(l.valueT, false, p.Types, "Kind")
 	l.kinds = c.EnumOf(ko.(*types.Func).Type().(*types.Signature).Results().At(0).Type())
@@ -191,7 +193,11 @@ func mbLoadLib(c *Ctx, rel, tag string) *mbLib {
 	return l
 }
 
-// mbSingleReturnConst: the constant a one-return method returns.
+// mbSingleReturnConst: the constant a one-return method returns. The returned
+// expression may be the constant itself, a conversion of it, a package
+// constant defined as an alias of it, a local bound to it, or a call of a
+// one-return function of the package that yields it (resolved through the
+// typed program, three levels).
 func mbSingleReturnConst(info *types.Info, fd *ast.FuncDecl) *types.Const {
 	if fd == nil || fd.Body == nil {
 		return nil
@@ -201,7 +207,7 @@ func mbSingleReturnConst(info *types.Info, fd *ast.FuncDecl) *types.Const {
 	ast.Inspect(fd.Body, func(x ast.Node) bool {
 		if r, ok := x.(*ast.ReturnStmt); ok && len(r.Results) == 1 {
 			n++
-			out = ConstOf(info, r.Results[0])
+			out = mbResolveConst(info, fd, r.Results[0], 0)
 		}
 		return true
 	})
@@ -209,6 +215,99 @@ func mbSingleReturnConst(info *types.Info, fd *ast.FuncDecl) *types.Const {
 		return nil
 	}
 	return out
+}
+
+func mbResolveConst(info *types.Info, fd *ast.FuncDecl, e ast.Expr, depth int) *types.Const {
+	if depth > 3 {
+		return nil
+	}
+	e = ast.Unparen(e)
+	if k := ConstOf(info, e); k != nil {
+		return mbCanonicalConst(k)
+	}
+	switch x := e.(type) {
+	case *ast.Ident:
+		// a local defined once
+		o := info.Uses[x]
+		if o == nil || fd == nil {
+			return nil
+		}
+		var def ast.Expr
+		cnt := 0
+		ast.Inspect(fd.Body, func(nd ast.Node) bool {
+			switch y := nd.(type) {
+			case *ast.AssignStmt:
+				for i, lh := range y.Lhs {
+					if id, ok := lh.(*ast.Ident); ok && (info.Defs[id] == o || info.Uses[id] == o) {
+						cnt++
+						if len(y.Lhs) == len(y.Rhs) {
+							def = y.Rhs[i]
+						}
+					}
+				}
+			case *ast.ValueSpec:
+				for i, nm := range y.Names {
+					if info.Defs[nm] == o {
+						cnt++
+						if i < len(y.Values) {
+							def = y.Values[i]
+						}
+					}
+				}
+			}
+			return true
+		})
+		if cnt == 1 && def != nil {
+			return mbResolveConst(info, fd, def, depth+1)
+		}
+	case *ast.CallExpr:
+		// conversion
+		if tv, ok := info.Types[x.Fun]; ok && tv.IsType() && len(x.Args) == 1 {
+			return mbResolveConst(info, fd, x.Args[0], depth+1)
+		}
+		// one-return function of the package
+		if fn := CalleeOf(info, x); fn != nil {
+			if hd := mbDeclsOfInfo[info][fn]; hd != nil && hd.Body != nil {
+				var res *types.Const
+				cnt := 0
+				mbInspectNoLit(hd.Body, func(nd ast.Node) bool {
+					if r, ok := nd.(*ast.ReturnStmt); ok && len(r.Results) == 1 {
+						cnt++
+						res = mbResolveConst(info, hd, r.Results[0], depth+1)
+					}
+					return true
+				})
+				if cnt == 1 {
+					return res
+				}
+			}
+		}
+	}
+	return nil
+}
+
+// mbCanonicalConst: a package constant defined as another name for a member
+// of a constant enumeration (`const indexKind = IndexExpressionKind`) stands for
+// that member: the exported constant of the same named type and value, when
+// there is exactly one.
+func mbCanonicalConst(k *types.Const) *types.Const {
+	if k.Pkg() == nil || k.Exported() {
+		return k
+	}
+	if _, named := types.Unalias(k.Type()).(*types.Named); !named {
+		return k
+	}
+	var cand []*types.Const
+	sc := k.Pkg().Scope()
+	for _, nm := range sc.Names() {
+		if o, ok := sc.Lookup(nm).(*types.Const); ok && o != k && o.Exported() && types.Identical(o.Type(), k.Type()) && o.Val().ExactString() == k.Val().ExactString() {
+			cand = append(cand, o)
+		}
+	}
+	if len(cand) == 1 {
+		return cand[0]
+	}
+	return k
 }
 
 func (l *mbLib) implOfType(t types.Type) *mbImpl {
@@ -354,15 +453,24 @@ func (l *mbLib) errClassDepth(info *types.Info, e ast.Expr, depth int) string {
 		sig := fn.Type().(*types.Signature)
 		if sig.Results().Len() == 1 {
 			if ptr, ok := sig.Results().At(0).Type().(*types.Pointer); ok && types.Identical(ptr.Elem(), l.intrT) {
-				cls := ""
+				// every return builds an interrupt of one class (a function that
+				// also returns nil is a check, not a constructor)
+				cls, all := "", true
 				mbInspectNoLit(fd.Body, func(x ast.Node) bool {
 					if r, ok := x.(*ast.ReturnStmt); ok && len(r.Results) == 1 {
-						if c := l.errClassDepth(l.info, r.Results[0], depth+1); c != "" {
+						c := l.errClassDepth(l.info, r.Results[0], depth+1)
+						if c == "" || (cls != "" && c != cls) {
+							all = false
+						}
+						if c != "" {
 							cls = c
 						}
 					}
 					return true
 				})
+				if !all {
+					return ""
+				}
 				return cls
 			}
 		}
@@ -422,6 +530,8 @@ type mbEntry struct {
 	val   ast.Expr
 	pos   token.Pos
 	guard []mbCondCtx
+	enc   *ast.FuncDecl // the function the value expression is written in
+	recv  types.Object  // the object that plays the receiver of Fields() there
 }
 
 type mbTable struct {
@@ -495,8 +605,16 @@ func mbVisitStmt(s ast.Stmt, stack []mbCondCtx, f func(s ast.Stmt, stack []mbCon
 }
 
 // mbExtractTable reads a `Fields()` method: the returned map literal, or a
-// local map literal extended by (guarded) `m["k"] = v` assignments.
+// local map literal extended by (guarded) `m["k"] = v` assignments. The table
+// may be built by a helper of the package (`return self.members(), nil`,
+// `return rangeMembers(span)`, `m := baseMembers(self); m["x"] = …`): the
+// helper's body is read the same way (two levels); every entry remembers the
+// function its value expression is written in and the object that plays the
+// receiver there.
+var mbDeclsOfInfo = map[*types.Info]map[*types.Func]*ast.FuncDecl{}
+
 func mbExtractTable(info *types.Info, fd *ast.FuncDecl) mbTable {
+	decls := mbDeclsOfInfo[info] // registered by mbLoadLib / mbLoadAn
 	var t mbTable
 	if fd == nil || fd.Body == nil {
 		t.why = "no Fields method"
@@ -506,6 +624,160 @@ func mbExtractTable(info *types.Info, fd *ast.FuncDecl) mbTable {
 		t.panics, t.ok = true, true
 		return t
 	}
+	if bad := mbExtractInto(&t, info, fd, decls, mbRecvObj(info, fd), nil, 0); bad != "" {
+		t.why = bad
+		t.entries, t.dynamic = nil, nil
+		return t
+	}
+	t.ok = true
+	return t
+}
+
+// mbHelperTable: call is a call of a package function/method with a body;
+// returns its declaration and the object that stands for `recv` inside it
+// (its own receiver when called on recv, or the parameter recv is passed as).
+func mbHelperTable(info *types.Info, call *ast.CallExpr, decls map[*types.Func]*ast.FuncDecl, recv types.Object) (*ast.FuncDecl, types.Object) {
+	fn := CalleeOf(info, call)
+	if fn == nil || decls == nil {
+		return nil, nil
+	}
+	hd := decls[fn]
+	if hd == nil || hd.Body == nil {
+		return nil, nil
+	}
+	var inner types.Object
+	isRecv := func(e ast.Expr) bool {
+		id, ok := ast.Unparen(e).(*ast.Ident)
+		return ok && recv != nil && info.Uses[id] == recv
+	}
+	if sel, ok := call.Fun.(*ast.SelectorExpr); ok && isRecv(sel.X) {
+		inner = mbRecvObj(info, hd)
+	}
+	i := 0
+	for _, f := range hd.Type.Params.List {
+		for _, nm := range f.Names {
+			if i < len(call.Args) && isRecv(call.Args[i]) {
+				inner = info.Defs[nm]
+			}
+			i++
+		}
+	}
+	return hd, inner
+}
+
+// mbCopiedTable: the assignment `target[key] = val` copies a local table into
+// the result: key and val are the variables of an enclosing
+// `for key, val := range src` over a local map `src` that is defined once, by a
+// map literal, and every condition between that loop and the assignment is a
+// presence test on the target (`if _, taken := target[key]; !taken`). Returns
+// the literal and the conditions outside the loop.
+func mbCopiedTable(info *types.Info, fd *ast.FuncDecl, key, val ast.Expr, stack []mbCondCtx, target types.Object) (*ast.CompositeLit, []mbCondCtx) {
+	kid, ok := ast.Unparen(key).(*ast.Ident)
+	if !ok {
+		return nil, nil
+	}
+	vid, ok := ast.Unparen(val).(*ast.Ident)
+	if !ok {
+		return nil, nil
+	}
+	li := -1
+	for i, g := range stack {
+		if g.loop != nil {
+			li = i
+		}
+	}
+	if li < 0 {
+		return nil, nil
+	}
+	rs, ok := stack[li].loop.(*ast.RangeStmt)
+	if !ok {
+		return nil, nil
+	}
+	rk, ok1 := rs.Key.(*ast.Ident)
+	rv, ok2 := rs.Value.(*ast.Ident)
+	if !ok1 || !ok2 || info.Defs[rk] == nil || info.Uses[kid] != info.Defs[rk] || info.Uses[vid] != info.Defs[rv] {
+		return nil, nil
+	}
+	sid, ok := ast.Unparen(rs.X).(*ast.Ident)
+	if !ok {
+		return nil, nil
+	}
+	src := info.Uses[sid]
+	if src == nil || src == target {
+		return nil, nil
+	}
+	// conditions inside the loop: presence tests on the target only
+	for _, g := range stack[li+1:] {
+		if g.cond == nil {
+			return nil, nil
+		}
+		okTest := false
+		mbInspectNoLit(fd.Body, func(n ast.Node) bool {
+			ifs, isIf := n.(*ast.IfStmt)
+			if !isIf || ifs.Cond != g.cond {
+				return true
+			}
+			if as, isAs := ifs.Init.(*ast.AssignStmt); isAs && len(as.Lhs) == 2 && len(as.Rhs) == 1 {
+				if ix, isIx := ast.Unparen(as.Rhs[0]).(*ast.IndexExpr); isIx {
+					if tid, isId := ast.Unparen(ix.X).(*ast.Ident); isId && info.Uses[tid] == target {
+						okTest = true
+					}
+				}
+			}
+			return true
+		})
+		if !okTest {
+			return nil, nil
+		}
+	}
+	// the source: defined once, by a literal
+	var lit *ast.CompositeLit
+	ndef := 0
+	mbInspectNoLit(fd.Body, func(n ast.Node) bool {
+		switch x := n.(type) {
+		case *ast.AssignStmt:
+			for i, lh := range x.Lhs {
+				id, isId := lh.(*ast.Ident)
+				if !isId {
+					// src[k] = … : the source is modified, not a plain literal table
+					if ix, isIx := lh.(*ast.IndexExpr); isIx {
+						if bid, isB := ast.Unparen(ix.X).(*ast.Ident); isB && info.Uses[bid] == src {
+							ndef += 2
+						}
+					}
+					continue
+				}
+				o := info.Defs[id]
+				if o == nil {
+					o = info.Uses[id]
+				}
+				if o != src {
+					continue
+				}
+				ndef++
+				if len(x.Lhs) == len(x.Rhs) {
+					lit, _ = ast.Unparen(x.Rhs[i]).(*ast.CompositeLit)
+				}
+			}
+		case *ast.ValueSpec:
+			for i, nm := range x.Names {
+				if info.Defs[nm] == src {
+					ndef++
+					if i < len(x.Values) {
+						lit, _ = ast.Unparen(x.Values[i]).(*ast.CompositeLit)
+					}
+				}
+			}
+		}
+		return true
+	})
+	if ndef != 1 || lit == nil {
+		return nil, nil
+	}
+	return lit, stack[:li]
+}
+
+func mbExtractInto(t *mbTable, info *types.Info, fd *ast.FuncDecl, decls map[*types.Func]*ast.FuncDecl, recv types.Object, outer []mbCondCtx, depth int) string {
 	var mapVar types.Object
 	var lit *ast.CompositeLit
 	nret := 0
@@ -522,7 +794,7 @@ func mbExtractTable(info *types.Info, fd *ast.FuncDecl) mbTable {
 				bad = "map literal key is not a constant: " + exprStr(kv.Key)
 				continue
 			}
-			t.entries = append(t.entries, mbEntry{key: strings.Trim(tv.Value.ExactString(), `"`), val: kv.Value, pos: kv.Pos(), guard: stack})
+			t.entries = append(t.entries, mbEntry{key: strings.Trim(tv.Value.ExactString(), `"`), val: kv.Value, pos: kv.Pos(), guard: stack, enc: fd, recv: recv})
 		}
 	}
 	isMapMake := func(e ast.Expr) bool {
@@ -536,6 +808,29 @@ func mbExtractTable(info *types.Info, fd *ast.FuncDecl) mbTable {
 		}
 		b, ok := info.Uses[id].(*types.Builtin)
 		return ok && b.Name() == "make"
+	}
+	// a table computed by a helper of the package
+	viaHelper := func(call *ast.CallExpr, stack []mbCondCtx) bool {
+		if depth >= 2 {
+			return false
+		}
+		hd, inner := mbHelperTable(info, call, decls, recv)
+		if hd == nil || hd == fd {
+			return false
+		}
+		if len(hd.Body.List) == 1 && IsPanicCall(info, hd.Body.List[0]) {
+			return false
+		}
+		if sub := mbExtractInto(t, info, hd, decls, inner, append(append([]mbCondCtx(nil), outer...), stack...), depth+1); sub != "" {
+			bad = "table computed by " + exprStr(call.Fun) + ": " + sub
+		}
+		return true
+	}
+	join := func(stack []mbCondCtx) []mbCondCtx {
+		if len(outer) == 0 {
+			return stack
+		}
+		return append(append([]mbCondCtx(nil), outer...), stack...)
 	}
 	mbVisitStmts(fd.Body.List, nil, func(s ast.Stmt, stack []mbCondCtx) {
 		r, ok := s.(*ast.ReturnStmt)
@@ -553,62 +848,90 @@ func mbExtractTable(info *types.Info, fd *ast.FuncDecl) mbTable {
 			mapVar = info.Uses[x]
 		case *ast.CallExpr:
 			if !isMapMake(x) {
-				bad = "returned table is computed by " + exprStr(x.Fun)
+				if len(stack) != 0 || !viaHelper(x, stack) {
+					bad = "returned table is computed by " + exprStr(x.Fun)
+				}
 			}
 		default:
 			bad = "unsupported return shape " + exprStr(r.Results[0])
 		}
 	})
 	if nret != 1 {
-		t.why = fmt.Sprintf("%d return statements in %s (expected 1)", nret, FuncName(fd))
-		return t
+		return fmt.Sprintf("%d return statements in %s (expected 1)", nret, FuncName(fd))
 	}
 	if lit != nil {
-		addLit(lit, nil)
+		addLit(lit, join(nil))
 	}
 	if mapVar != nil {
 		defined := false
-		mbVisitStmts(fd.Body.List, nil, func(s ast.Stmt, stack []mbCondCtx) {
-			as, ok := s.(*ast.AssignStmt)
-			if !ok {
-				return
+		def := func(rhs ast.Expr, stack []mbCondCtx) {
+			if defined {
+				bad = "table variable assigned twice"
 			}
-			for i, lhs := range as.Lhs {
-				switch lx := lhs.(type) {
-				case *ast.Ident:
-					o := info.Defs[lx]
-					if o == nil {
-						o = info.Uses[lx]
+			defined = true
+			switch rx := ast.Unparen(rhs).(type) {
+			case *ast.CompositeLit:
+				if len(stack) != 0 {
+					bad = "table variable defined under a condition"
+				}
+				addLit(rx, join(nil))
+			case *ast.CallExpr:
+				if !isMapMake(rx) {
+					if len(stack) != 0 || !viaHelper(rx, stack) {
+						bad = "table variable computed by " + exprStr(rx.Fun)
 					}
-					if o != mapVar || i >= len(as.Rhs) {
-						continue
-					}
-					if defined {
-						bad = "table variable assigned twice"
-					}
-					defined = true
-					switch rx := ast.Unparen(as.Rhs[i]).(type) {
-					case *ast.CompositeLit:
-						if len(stack) != 0 {
-							bad = "table variable defined under a condition"
+				}
+			default:
+				bad = "table variable defined by " + exprStr(rhs)
+			}
+		}
+		mbVisitStmts(fd.Body.List, nil, func(s ast.Stmt, stack []mbCondCtx) {
+			switch x := s.(type) {
+			case *ast.DeclStmt:
+				if gd, ok := x.Decl.(*ast.GenDecl); ok {
+					for _, sp := range gd.Specs {
+						if vs, ok := sp.(*ast.ValueSpec); ok {
+							for i, nm := range vs.Names {
+								if info.Defs[nm] == mapVar && i < len(vs.Values) {
+									def(vs.Values[i], stack)
+								}
+							}
 						}
-						addLit(rx, nil)
-					case *ast.CallExpr:
-						if !isMapMake(rx) {
-							bad = "table variable computed by " + exprStr(rx.Fun)
+					}
+				}
+			case *ast.AssignStmt:
+				as := x
+				for i, lhs := range as.Lhs {
+					switch lx := lhs.(type) {
+					case *ast.Ident:
+						o := info.Defs[lx]
+						if o == nil {
+							o = info.Uses[lx]
 						}
-					default:
-						bad = "table variable defined by " + exprStr(as.Rhs[i])
-					}
-				case *ast.IndexExpr:
-					id, ok := ast.Unparen(lx.X).(*ast.Ident)
-					if !ok || info.Uses[id] != mapVar || i >= len(as.Rhs) {
-						continue
-					}
-					if tv := info.Types[lx.Index]; tv.Value != nil {
-						t.entries = append(t.entries, mbEntry{key: strings.Trim(tv.Value.ExactString(), `"`), val: as.Rhs[i], pos: as.Pos(), guard: stack})
-					} else {
-						t.dynamic = append(t.dynamic, as.Pos())
+						if o != mapVar {
+							continue
+						}
+						if len(as.Lhs) != len(as.Rhs) {
+							if len(as.Rhs) == 1 && i == 0 {
+								def(as.Rhs[0], stack) // m, err := helper(...)
+							}
+							continue
+						}
+						def(as.Rhs[i], stack)
+					case *ast.IndexExpr:
+						id, ok := ast.Unparen(lx.X).(*ast.Ident)
+						if !ok || info.Uses[id] != mapVar || i >= len(as.Rhs) {
+							continue
+						}
+						if tv := info.Types[lx.Index]; tv.Value != nil {
+							t.entries = append(t.entries, mbEntry{key: strings.Trim(tv.Value.ExactString(), `"`), val: as.Rhs[i], pos: as.Pos(), guard: join(stack), enc: fd, recv: recv})
+						} else if src, outerStack := mbCopiedTable(info, fd, lx.Index, as.Rhs[i], stack, mapVar); src != nil {
+							// `for k, v := range builtins { fields[k] = v }`: the entries of
+							// the local table `builtins` (a literal with constant keys)
+							addLit(src, join(outerStack))
+						} else {
+							t.dynamic = append(t.dynamic, as.Pos())
+						}
 					}
 				}
 			}
@@ -617,12 +940,7 @@ func mbExtractTable(info *types.Info, fd *ast.FuncDecl) mbTable {
 			bad = "definition of the table variable not found"
 		}
 	}
-	if bad != "" {
-		t.why = bad
-		return t
-	}
-	t.ok = true
-	return t
+	return bad
 }
 
 // ---------------------------------------------------------------------------
@@ -676,6 +994,7 @@ func mbLoadAn(c *Ctx) *mbAn {
 			a.decls[fn] = fd
 		}
 	}
+	mbDeclsOfInfo[a.info] = a.decls
 	scope := p.Types.Scope()
 	for _, name := range scope.Names() {
 		tn, ok := scope.Lookup(name).(*types.TypeName)
